@@ -55,9 +55,9 @@ fn thorough_fuzz(ctx: &Ctx, out: &mut Outcome) {
         return;
     }
     let c = match ctx.prop.as_str() {
-        "C01" | "C02" | "C03" | "C04" | "C05" | "C06" | "C09" | "C10" | "C11" | "C17" => Campaign { target: "gen_all", runs_per_job: 60_000, jobs: 8, max_len: 4096, detect_leaks: false },
-        "C08" => Campaign { target: "reuse", runs_per_job: 40_000, jobs: 8, max_len: 2048, detect_leaks: false },
-        "C14" => Campaign { target: "reuse", runs_per_job: 40_000, jobs: 8, max_len: 2048, detect_leaks: true },
+        "C01" | "C02" | "C03" | "C04" | "C05" | "C06" | "C09" | "C10" | "C11" | "C17" => Campaign { target: "gen_all", runs_per_job: 10_000, jobs: 12, max_len: 2048, detect_leaks: false },
+        "C08" => Campaign { target: "reuse", runs_per_job: 5_000, jobs: 12, max_len: 1024, detect_leaks: false },
+        "C14" => Campaign { target: "reuse", runs_per_job: 5_000, jobs: 12, max_len: 1024, detect_leaks: true },
         "C15" | "C16" => Campaign { target: "mutators", runs_per_job: 400_000, jobs: 8, max_len: 256, detect_leaks: false },
         _ => return,
     };
@@ -91,7 +91,8 @@ fn main() {
             let out = match out_pre {
                 Some(o) => o,
                 None => match std::panic::catch_unwind(std::panic::AssertUnwindSafe(|| {
-                    let mut o = run_check(&ctx);
+                    // VERIF_ONLY_FUZZ=1 (debugging aid): skip the proptest phases of a thorough run
+                    let mut o = if std::env::var_os("VERIF_ONLY_FUZZ").is_some() { Outcome::new("libFuzzer campaign only") } else { run_check(&ctx) };
                     thorough_fuzz(&ctx, &mut o);
                     o
                 })) {
